@@ -453,7 +453,8 @@ func c04Requests() (qs []c04Req) {
 	}
 	names := []string{"", "Mom", "Frank's laptop", "a,b", "x|y", "Dad", " tv", "tv", "Fr\u00e9d\u00e9ric", "kids/tablet", "~guest", "10.0.0.0/40"}
 	ips := []string{"", "127.0.0.1", "192.168.0.7", "fe80::1", "10.0.0.1", "fd00::17", "::ffff:192.168.0.7", "::ffff:10.0.0.1"}
-	tagsets := [][]string{nil, {"pc"}, {"phone"}, {"pc", "phone"}, {"printer", "tv"}}
+	tagsets := [][]string{nil, {"pc"}, {"phone"}, {"pc", "phone"}, {"printer", "tv"},
+		{"a1", "a2", "a3", "a4", "a5", "a6", "a7", "pc", "phone", "tv"}} // more than eight, sorted, without "printer"
 	for _, h := range []string{"example.org", "ads.sub.example.org", "1.2.3.4"} {
 		for _, dt := range []uint16{1, 28, 5, 65, 257} {
 			for ni, n := range names {
